@@ -28,7 +28,7 @@ from saml2_tophat import BINDING_HTTP_POST, BINDING_HTTP_REDIRECT, BINDING_SOAP,
 from saml2_tophat.saml import SCM_BEARER, SCM_SENDER_VOUCHES, SCM_HOLDER_OF_KEY
 
 CLAIM = {
-    "text": "Coq theorems (Props/C04.v) over the SP pipeline model, for every integer clock value, every allowance, every subset of present bounds and every content: acceptance implies that no NotOnOrAfter (Conditions, EVERY bearer SubjectConfirmationData whether retained or not, SessionNotOnOrAfter) is more than the allowance in the past, no NotBefore more than the allowance in the future, Conditions NotBefore <= NotOnOrAfter, a bearer confirmation with NotBefore > NotOnOrAfter is never retained, and IssueInstant is strictly within a day plus the allowance; the session expiry returned is SessionNotOnOrAfter when present, else the Conditions NotOnOrAfter, else 0 (lia after case analysis; unbounded Z). The same statement is proved for every binding value of parse_authn_request_response (POST/Redirect asynchop, SOAP/PAOS asynchop=False; PAOS is never accepted at all: unravel raises) and either value of the asynchop switch; one bearer confirmation out of its window at any position among any other confirmations rejects; the IssueInstant window is proved for every response kind sharing StatusResponse._verify (authn, attribute query, authn query, logout, name-id mapping, manage-name-id) over every binding, with the bearer (and, attribute query, Conditions) bounds for the query kinds; and by induction over call sequences on one long-lived SP: the configuration is unchanged, every accepted call met the windows at its own clock value, and a verdict does not depend on earlier calls. The acceptance side (inside all windows with margin => not rejected on time grounds) is covered by the grid correspondence and oracle, not by a theorem. Tie: edge x offset x presence-subset x allowance x spelling x binding x confirmation-shape x response-kind grid on implementation (controlled clock, seed-shuffled order on long-lived clients, explicit histories) and model.",
+    "text": "Coq theorems (Props/C04.v) over the SP pipeline model, for every integer clock value, every allowance, every subset of present bounds and every content: acceptance implies that no NotOnOrAfter (Conditions, EVERY bearer SubjectConfirmationData whether retained or not, SessionNotOnOrAfter) is more than the allowance in the past, no NotBefore more than the allowance in the future, Conditions NotBefore <= NotOnOrAfter, a bearer confirmation with NotBefore > NotOnOrAfter is never retained, and IssueInstant is strictly within a day plus the allowance; the session expiry returned is SessionNotOnOrAfter when present, else the Conditions NotOnOrAfter, else 0 (lia after case analysis; unbounded Z). The same statement is proved for every binding value of parse_authn_request_response (POST/Redirect asynchop, SOAP/PAOS asynchop=False; PAOS is never accepted at all: unravel raises) and either value of the asynchop switch; one bearer confirmation out of its window at any position among any other confirmations rejects; the IssueInstant window is proved for every response kind sharing StatusResponse._verify (authn, attribute query, authn query, logout, name-id mapping, manage-name-id) over every binding, with the bearer (and, attribute query, Conditions) bounds for the query kinds; and by induction over call sequences on one long-lived SP: the configuration is unchanged, every accepted call met the windows at its own clock value, and a verdict does not depend on earlier calls. The acceptance side (inside all windows with margin => not rejected on time grounds) is covered by the grid correspondence and oracle, not by a theorem. Tie: edge x offset x presence-subset x allowance x spelling x binding x confirmation-shape x response-kind grid (assertion plain / signed / in a signed response / encrypted; logout and manage-name-id also at an IdP) on implementation (controlled clock, seed-shuffled order on long-lived clients, explicit histories) and model.",
     "note": "Trusted: Coq kernel + vm_compute; pipeline / kinds models tied to the code by the grid correspondence; the controlled clock patch (self-checked each run; falls back to nothing — a defeated patch is a broken obligation); timestamps are whole seconds as in the code (fractions truncated, spellings with offsets rejected by schema validation). Equality instants are executed but not compared; bounds on non-bearer confirmations are not compared (unspecified). Outside: AuthnQuery responses ignore Conditions by design of the library (condition_ok returns True) and query kinds ignore SessionNotOnOrAfter; authz-decision responses cannot be delivered at all (no SOAP parser for them).",
     "technique": "machine-checked proof (Coq, linear arithmetic over Z, induction over call sequences) + clock-grid correspondence over bindings/kinds/histories + implementation-level oracle",
 }
@@ -40,7 +40,7 @@ RULE = ("authn: focus bound in {Conditions NotOnOrAfter/NotBefore, bearer SCD No
         "SCD NotBefore>NotOnOrAfter} x offset of now from the edge {-2,-1,0,+1,+2,+-3600,+-2d} x allowance {0,1,60,3600,10^6} x presence subsets of the other bounds "
         "x spelling {Z,noZ,frac,fracNoZ,offset,garbage} x binding {post,soap full; redirect,paos thinned} x confirmation layout {F, F+g, g+F, and 2-3 confirmation shapes with "
         "bearer(g,gn,g0)/sender-vouches/holder-of-key companions and focus variants, every position}; kinds {attrq,authnq,logout,nim,mni} x IssueInstant low/high (+ SCD/Conditions "
-        "bounds for the query kinds) x offsets x allowances x bindings; non-trivial = offset within +-2 s of the edge; cells at offset 0 are 'unspecified' (run, not compared); "
+        "bounds for the query kinds) x offsets x allowances x bindings, logout/mni also received by an IdP; authn also with the assertion signed / in a signed response / encrypted / encrypted+signed; non-trivial = offset within +-2 s of the edge; cells at offset 0 are 'unspecified' (run, not compared); "
         "run order shuffled by the seed on long-lived clients; explicit histories of 40 calls on fresh clients")
 
 OFFSETS = [-2, -1, 0, 1, 2, -3600, 3600, -172800, 172800]
@@ -60,6 +60,7 @@ QUERY = ("attrq", "authnq")
 STATUS = ("logout", "nim", "mni")
 # legacy layout names
 LAYOUT_ALIAS = {"single": "F", "focus-first": "F+g", "focus-last": "g+F"}
+WRAPS = ["sigA", "sigR", "enc", "enc+sigA"]
 SHAPES = ["F+gn", "gn+F", "F+g0", "g0+F", "F+sv", "sv+F", "F+hk", "hk+F", "g+g+F", "g+F+g", "F+g+g", "sv+F+g", "g+sv+F", "hk+g+F",
           "Fr+g", "g+Fr", "Fr+sv", "sv+Fr"]
 
@@ -79,7 +80,16 @@ def _companion(tok, now):
     raise ValueError(tok)
 
 
-def build(focus, off, slack, present, spelling, layout, binding="post", kind="authn"):
+def build_cell(c):
+    return build(c["focus"], c["off"], c["slack"], tuple(c["present"]), c["spelling"], c["layout"], c.get("binding", "post"),
+                 c.get("kind", "authn"), c.get("wrap", "plain"))
+
+
+def all_assertions(spec):
+    return list(spec.get("encrypted", [])) + list(spec["assertions"])
+
+
+def build(focus, off, slack, present, spelling, layout, binding="post", kind="authn", wrap="plain"):
     """returns (now, spec).  All bounds except the focus one are comfortably valid relative to `now`."""
     layout = LAYOUT_ALIAS.get(layout, layout)
     now = NOW
@@ -131,7 +141,12 @@ def build(focus, off, slack, present, spelling, layout, binding="post", kind="au
     dest = {"post": SP_ACS_POST, "redirect": SP_ACS_REDIRECT}.get(binding, SP_ACS_POST)
     if kind in STATUS:
         return now, R(issue_instant=ii, assertions=[], destination=None, spelling=spelling)
-    return now, R(issue_instant=ii, assertions=[a], spelling=spelling, destination=dest)
+    # how the assertion travels: plain / signed / inside a signed response / encrypted (checked after decryption)
+    if "sigA" in wrap:
+        a["sig"] = "valid"
+    if wrap.startswith("enc"):
+        return now, R(issue_instant=ii, assertions=[], encrypted=[a], spelling=spelling, destination=dest)
+    return now, R(issue_instant=ii, assertions=[a], spelling=spelling, destination=dest, sig="valid" if wrap == "sigR" else None)
 
 
 def _bearers(a):
@@ -141,7 +156,7 @@ def _bearers(a):
 def violated(now, slack, spec, kind="authn"):
     """the property's rejection clause, independent of model and code: some present bound is strictly violated"""
     out = []
-    for a in spec["assertions"]:
+    for a in all_assertions(spec):
         k = a["conditions"]
         if kind != "authnq":
             if k["nooa"] is not None and now > k["nooa"] + slack:
@@ -165,7 +180,7 @@ def violated(now, slack, spec, kind="authn"):
 
 def on_edge(now, slack, spec):
     """now equals some present bound (+- allowance) exactly: unspecified by the property"""
-    for a in spec["assertions"]:
+    for a in all_assertions(spec):
         k = a["conditions"]
         for v in [k["nooa"], a["authn"][0]["session_nooa"]] + [c["nooa"] for c in a["confirmations"]]:
             if v is not None and now == v + slack:
@@ -179,7 +194,7 @@ def on_edge(now, slack, spec):
 def inside_with_margin(now, slack, spec):
     ok = True
     profile = True
-    for a in spec["assertions"]:
+    for a in all_assertions(spec):
         k = a["conditions"]
         for v in [k["nooa"], a["authn"][0]["session_nooa"]] + [c["nooa"] for c in a["confirmations"]]:
             if v is not None and not (now + slack < v):
@@ -194,8 +209,9 @@ def inside_with_margin(now, slack, spec):
 
 
 # ---------------------------------------------------------------- the plan of cells
-def cell(kind, binding, focus, off, slack, present, spelling, layout):
-    return dict(kind=kind, binding=binding, focus=focus, off=off, slack=slack, present=list(present), spelling=spelling, layout=layout)
+def cell(kind, binding, focus, off, slack, present, spelling, layout, wrap="plain", entity="sp"):
+    return dict(kind=kind, binding=binding, focus=focus, off=off, slack=slack, present=list(present), spelling=spelling, layout=layout,
+                wrap=wrap, entity=entity)
 
 
 def plan(quick, rng):
@@ -246,6 +262,20 @@ def plan(quick, rng):
                 if layout != "F" and not focus.startswith("d_"):
                     continue
                 out.append(cell(kind, "soap", focus, off, slack, ("k_nooa", "d_nooa") if focus.startswith("k_") else (), "Z", layout))
+    # D. the assertion signed / inside a signed response / encrypted (time checks run after signature checking and decryption)
+    for binding, wrap in itertools.product(("post", "soap"), WRAPS):
+        for focus, off, slack in itertools.product(FOCI[:7], NEAR + [3600, -3600], [0, 60]):
+            if quick and abs(off) > 2 and slack:
+                continue
+            out.append(cell("authn", binding, focus, off, slack, ("k_nooa", "d_nooa"), "Z", "F", wrap=wrap))
+        for focus, off, layout in itertools.product(("d_nooa", "d_nb"), [-1, 1], ("F+g", "g+F", "sv+F")):
+            out.append(cell("authn", binding, focus, off, 0, (), "Z", layout, wrap=wrap))
+    # E. logout / manage-name-id responses arriving at an IdP (Server): the same Entity._parse_response, the IdP's allowance
+    for kind, binding in itertools.product(("logout", "mni"), ("soap", "post")):
+        for focus, off, slack in itertools.product(("ii_low", "ii_high"), OFFSETS, SLACKS):
+            if quick and slack in (1, 3600) and abs(off) > 2:
+                continue
+            out.append(cell(kind, binding, focus, off, slack, (), "Z", "F", entity="idp"))
     rng.shuffle(out)
     return out
 
@@ -287,9 +317,21 @@ def status_xml(kind, spec):
                    status=resp._status(spec.get("status")), **kw))
 
 
+_idps = {}
+
+
+def idp_for(slack):
+    """long-lived IdP (Server) per allowance"""
+    if slack not in _idps:
+        _idps[slack] = env.make_idp(**({"accepted_time_diff": slack} if slack else {}))
+    return _idps[slack]
+
+
 def run_cell(sp, c, spec, ids):
     """the real entry point for this kind / binding; Exn | None | observable"""
     kind, binding = c["kind"], c["binding"]
+    if c.get("entity") == "idp":
+        sp = idp_for(c["slack"])
     outstanding = {"req-1": "/came-from-1"}
     try:
         if kind == "authn":
@@ -304,8 +346,8 @@ def run_cell(sp, c, spec, ids):
             fn = sp.parse_attribute_query_response if kind == "attrq" else sp.parse_authn_query_response
         else:
             w = wire(status_xml(kind, spec), binding)
-            fn = {"logout": sp.parse_logout_request_response, "nim": sp.parse_name_id_mapping_request_response,
-                  "mni": sp.parse_manage_name_id_request_response}[kind]
+            fn = getattr(sp, {"logout": "parse_logout_request_response", "nim": "parse_name_id_mapping_request_response",
+                              "mni": "parse_manage_name_id_request_response"}[kind])
         r = fn(w, BIND[binding])
         return None if r is None else True
     except BaseException as e:  # noqa
@@ -336,7 +378,7 @@ def execute(ctx, cells, clock, record=True):
     """run the cells in order on the long-lived clients; returns per-cell results"""
     results = []
     for n, c in enumerate(cells):
-        now, spec = build(c["focus"], c["off"], c["slack"], tuple(c["present"]), c["spelling"], c["layout"], c["binding"], c["kind"])
+        now, spec = build_cell(c)
         clock.now = now
         case = case_for(c)
         rc, ids = pipeline.response_coq(spec, case.enc_keys)
@@ -349,25 +391,28 @@ def judge(ctx, c, now, spec, got, seq=None):
     """the property as an implementation-level oracle on one run"""
     kind, binding, slack = c["kind"], c["binding"], c["slack"]
     rep = dict(c, seq=seq)
+    # labels of the oracle keys: call site (kind, receiving entity) and transport (binding, how the assertion is wrapped)
+    klabel = kind if c.get("entity", "sp") == "sp" else "%s@%s" % (kind, c["entity"])
+    blabel = binding if c.get("wrap", "plain") == "plain" else "%s/%s" % (binding, c["wrap"])
     if c["spelling"] in pipeline.SPELLINGS:
         if on_edge(now, slack, spec):
             return
         bad = violated(now, slack, spec, kind)
         if accepted(got) and bad:
-            ctx.oracle_fail("accepted-outside-window:%s:%s:%s:%s" % (kind, binding, bad[0], c["layout"]),
-                            "%s response over %s accepted although %s is violated (now=%d, allowance=%d)" % (kind, binding, ", ".join(bad), now, slack), rep)
+            ctx.oracle_fail("accepted-outside-window:%s:%s:%s:%s" % (klabel, blabel, bad[0], c["layout"]),
+                            "%s response over %s accepted although %s is violated (now=%d, allowance=%d)" % (klabel, blabel, ", ".join(bad), now, slack), rep)
         reachable = binding != "paos" and not (kind in QUERY and binding != "soap")
         if reachable and not accepted(got) and inside_with_margin(now, slack, spec):
-            ctx.oracle_fail("rejected-inside-window:%s:%s:%s" % (kind, binding, c["focus"]),
-                            "profile-conformant %s response over %s inside every window (margin > allowance) rejected: %s" % (kind, binding, got), rep)
-        if kind == "authn" and isinstance(got, list):
+            ctx.oracle_fail("rejected-inside-window:%s:%s:%s" % (klabel, blabel, c["focus"]),
+                            "profile-conformant %s response over %s inside every window (margin > allowance) rejected: %s" % (klabel, blabel, got), rep)
+        if kind == "authn" and isinstance(got, list) and len(spec["assertions"]) == 1 and not spec.get("encrypted"):
             a = spec["assertions"][0]
             want = a["authn"][0]["session_nooa"] or a["conditions"]["nooa"] or 0
             if got[3] != want:
-                ctx.oracle_fail("session-expiry:%s:%s" % (binding, "session-present" if a["authn"][0]["session_nooa"] else "conditions-only"),
+                ctx.oracle_fail("session-expiry:%s:%s" % (blabel, "session-present" if a["authn"][0]["session_nooa"] else "conditions-only"),
                                 "session expiry handed over is %r, expected %r" % (got[3], want), rep)
     elif c["spelling"] in pipeline.BAD_SPELLINGS and accepted(got):
-        ctx.oracle_fail("bad-timestamp-accepted:%s:%s:%s" % (kind, binding, c["spelling"]), "timestamp spelling %s accepted" % c["spelling"], rep)
+        ctx.oracle_fail("bad-timestamp-accepted:%s:%s:%s" % (klabel, blabel, c["spelling"]), "timestamp spelling %s accepted" % c["spelling"], rep)
 
 
 def run(ctx):
@@ -379,7 +424,8 @@ def run(ctx):
         results = execute(ctx, cells, clock)
     for n, (c, now, spec, case, rc, got) in enumerate(results):
         kind, binding = c["kind"], c["binding"]
-        ctx.count("%s/%s:%s" % (kind, binding, "accepted" if accepted(got) else "rejected:" + (got.name if isinstance(got, Exn) else "None")))
+        ctx.count("%s%s/%s%s:%s" % (kind, "@idp" if c.get("entity") == "idp" else "", binding, "" if c.get("wrap", "plain") == "plain" else "/" + c["wrap"],
+                                    "accepted" if accepted(got) else "rejected:" + (got.name if isinstance(got, Exn) else "None")))
         edge_cell = on_edge(now, c["slack"], spec)
         # PAOS: the library cannot unravel it (always rejected).  Should a change make it deliverable, an accepted
         # response is held to what the model says for the other synchronous binding.
@@ -479,8 +525,8 @@ def replay(ctx, payload):
     print("replay cell:", c)
     if not isinstance(c, dict) or "focus" not in c or c["focus"] == "expiry":
         return 0
-    c = dict(dict(kind="authn", binding="post"), **c)
-    now, spec = build(c["focus"], c["off"], c["slack"], tuple(c["present"]), c["spelling"], c["layout"], c["binding"], c["kind"])
+    c = dict(dict(kind="authn", binding="post", wrap="plain", entity="sp"), **c)
+    now, spec = build_cell(c)
     with env.Clock(now) as clock:
         case = case_for(c)
         _, ids = pipeline.response_coq(spec, case.enc_keys)
@@ -492,7 +538,8 @@ def replay(ctx, payload):
             # the same call in the position it had in the run (shuffled order of that seed / tier)
             SPCase._cache.clear()
             cells = plan(payload.get("tier", "quick") != "thorough", random.Random(payload.get("seed", ctx.seed)))
-            if seq < len(cells) and all(cells[seq].get(k) == c.get(k) for k in ("kind", "binding", "focus", "off", "slack", "layout")):
+            if seq < len(cells) and all(cells[seq].get(k) == c.get(k) for k in ("kind", "binding", "focus", "off", "slack", "layout", "wrap", "entity")):
+                _idps.clear()
                 res = execute(ctx, cells[:seq + 1], clock)
                 print("implementation outcome as call #%d of the run order:" % seq, res[-1][5])
     return 0
